@@ -1140,7 +1140,7 @@ class Timeout:
 
 THEOREMS = ['Props.C05.' + t for t in ['binding_is_modelled', 'column_boundaries_correct', 'row_slicing_correct', 'field_value_printed', 'blank_field_is_zero',
                                     'field_beyond_row_is_zero', 'line_terminator_ignored', 'row_format_decidable', 'icolumn_negative_first_real_witness',
-                                    'rows_keyed_by_printed_index', 'rows_in_index_order', 'autough2_row_split_correct',
+                                    'rows_keyed_by_printed_index', 'rows_in_index_order', 'skip_lands_where_read_lands', 'autough2_row_split_correct',
                                     'autough2_adjacent_numbers_merge', 'addressing_agrees', 'reversed_key_row']]
 LEVEL_TEXT = ('Proof: 13 Lean theorems about the row layer of the reader and listingtable: parse_table_line infers exactly the field starts from a line of '
               'right-aligned number fields (column_boundaries_correct; its side conditions are decided on the longest line of every table by a '
